@@ -80,28 +80,25 @@ Proof.
     { intros ->. inversion E; subst. oof_absurd Hit. }
     destruct (X _ _ _ _ _ _ HR Es Hrs) as [s2a [Es2 HR2]]. rewrite Es2.
     destruct rs as [v f4|c|k].
-    + set (f3c := set_cut (if omitsep then set_ast (goto (push f) (pos f4)) (fast f4)
-                           else append (set_ast (goto (push f) (pos f4)) (fast f4)) (cstfinal (cst f4)))) in *.
-      destruct (ev1 e (push f3c) (cut1 f3c s1a)) as [re s1b] eqn:Ee.
-      assert (Hre : re <> Fatal OOF).
-      { intros ->. inversion E; subst. oof_absurd Hit. }
-      destruct (X _ _ _ _ _ _ (cut_rel f3c _ _ HR2) Ee Hre) as [s2b [Ee2 HR3]]. rewrite Ee2.
-      destruct re as [v5 f5|c5|k5].
-      * match type of E with (if ?b then _ else _) = _ => destruct b end;
-          inversion E; subst; exists s2b; (split; [reflexivity|first [exact HR3 | exact I]]).
-      * inversion E; subst. exists s2b. split; [reflexivity|first [exact HR3 | exact I]].
-      * inversion E; subst. exists s2b. split; [reflexivity|first [exact HR3 | exact I]].
-    + inversion E; subst. exists s2a. split; [reflexivity|first [exact HR2 | exact I]].
+    + cbn [okst] in HR2.
+      match type of E with context [ev1 e ?F (cut1 ?G s1a)] =>
+        destruct (ev1 e F (cut1 G s1a)) as [re s1b] eqn:Ee;
+        assert (Hre : re <> Fatal OOF) by (intros ->; inversion E; subst; oof_absurd Hit);
+        destruct (X _ _ _ _ _ _ (cut_rel G _ _ HR2) Ee Hre) as [s2b [Ee2 HR3]]
+      end.
+      rewrite Ee2.
+      destruct re as [v5 f5|c5|k5];
+        repeat match type of E with context [if ?b then _ else _] => destruct b end;
+        inversion E; subst; exists s2b; (split; [reflexivity|first [exact HR3 | exact I]]).
+    + destruct c; inversion E; subst; exists s2a; (split; [reflexivity|first [exact HR2 | exact I]]).
     + inversion E; subst. exists s2a. split; [reflexivity|first [exact HR2 | exact I]].
   - destruct (ev1 e (push (push f)) s1) as [re s1b] eqn:Ee.
     assert (Hre : re <> Fatal OOF).
     { intros ->. inversion E; subst. oof_absurd Hit. }
     destruct (X _ _ _ _ _ _ HR Ee Hre) as [s2b [Ee2 HR3]]. rewrite Ee2.
-    destruct re as [v5 f5|c5|k5].
-    + match type of E with (if ?b then _ else _) = _ => destruct b end;
-        inversion E; subst; exists s2b; (split; [reflexivity|first [exact HR3 | exact I]]).
-    + inversion E; subst. exists s2b. split; [reflexivity|first [exact HR3 | exact I]].
-    + inversion E; subst. exists s2b. split; [reflexivity|first [exact HR3 | exact I]].
+    destruct re as [v5 f5|c5|k5];
+      repeat match type of E with context [if ?b then _ else _] => destruct b end;
+      inversion E; subst; exists s2b; (split; [reflexivity|first [exact HR3 | exact I]]).
 Qed.
 
 Lemma repeat_go_rel ev1 ev2 : Rel ev1 ev2 ->
